@@ -16,7 +16,8 @@ RULE = ("random geometries N in 1..40 (thorough ..79, some 80..300 with up to 6 
         "0-4 configs (some with an order that changes on every pass), optional resume; plus: constructor-argument "
         "mutations (invalid batch sizes / drop_last_batch_size / budgets / configs / several checkpoints), several "
         "budgets at once (assigned after construction), the real DataLoader with num_workers=0 (thorough: also 2); "
-        "main / side samplers in a lazy (generator) and an eager (order fixed in __iter__) flavour, 5% torch "
+        "main + side samplers drawing every index lazily (at next()) from ONE shared recorded draw source, the spec "
+        "consuming the source in stream order; main / side samplers in a lazy (generator) and an eager (order fixed in __iter__) flavour, 5% torch "
         "DistributedSampler(shuffle=True) mains, main sampler objects holding a stale epoch; set_epoch and __iter__ "
         "calls logged as events; object histories (earlier complete / abandoned iterations of the same object, other "
         "InterleavedSamplers with other batch sizes / budgets / checkpoints on the same main sampler and config "
@@ -46,6 +47,8 @@ def gen_cases(rng, tier):
         c["perm_seed"] = rng.randint(0, 999)
         out.append(c)
         k += 1
+    # main and side samplers drawing lazily from ONE shared draw source (side passes due inside the epoch)
+    out += [I.gen_drawn_case(rng) for _ in range(60 if tier == "quick" else 600)]
     # constructor arguments the assertions are about
     for _ in range(n_mut):
         c = I.gen_bounded(rng)
@@ -90,6 +93,11 @@ def main_proj(case, log):
 
 
 def oracle(case, obs):
+    """the stream first, then: index tensors the samplers keep were not changed by the scheduler"""
+    return stream_oracle(case, obs) or ("harness_exception" not in obs and I.storage_violation(obs)) or None
+
+
+def stream_oracle(case, obs):
     if "harness_exception" in obs:
         return "harness exception: " + obs["harness_exception"] + obs.get("tb", "")
     msg = I.history_violation(case, obs, main_proj, "main stream (set_epoch / iter calls and main indices)")
@@ -186,6 +194,9 @@ def features(case, obs):
     yield "main_kind=%s" % case.get("main_kind", "lazy")
     yield "pre_epoch=%s" % ("none" if case.get("pre_epoch") is None else "held")
     yield "eager_sides=%d" % sum(1 for s in case["sides"] if s.get("eager"))
+    yield "main_repr=%s" % (case.get("main_repr") or "int")
+    for r in sorted({s.get("repr") or "int" for s in case["sides"]}):
+        yield "side_repr:%s" % r
     sc = case.get("scenario") or []
     yield "history=%s" % ("none" if len(sc) <= 2 else "%d+ steps" % min(len(sc) - 2, 4))
     if len(sc) > 2:
